@@ -360,6 +360,9 @@ func (fr *frame) applyContract(con *Contract, callee *ssa.Function, sig *types.S
 		fr.guard = vc.define(fr.pfx+"g", sBool, and(fr.guard, not(pc)))
 	} else if len(con.clauses("may_panic")) > 0 {
 		pc := vc.fresh(fr.pfx+"maypanic:"+shortName(cname), sBool)
+		for _, cl := range con.clauses("panics_if") {
+			vc.assume(implies(env.evalBool(cl.Expr), pc))
+		}
 		fr.panicExitFromCallee(pc, "panic in "+cname+" at "+pos, con, post)
 		fr.guard = vc.define(fr.pfx+"g", sBool, and(fr.guard, not(pc)))
 	}
@@ -779,11 +782,11 @@ func (vc *VC) modsOfBlocks(blocks []*ssa.BasicBlock, pats map[string]bool, seen 
 					pats["M:"+vc.sortOf(leafType(sliceElem(ms.Type())))] = true
 				}
 			case *ssa.MakeMap:
-				pats["brk"], pats["Kd:*"], pats["Kc"] = true, true, true
+				pats["brk"], pats["Kd:*"], pats["Kc:*"] = true, true, true
 			case *ssa.Store:
 				vc.modsOfAddr(x.Addr, pats)
 			case *ssa.MapUpdate:
-				pats["Kd:*"], pats["Kv:*"], pats["Kc"] = true, true, true
+				pats["Kd:*"], pats["Kv:*"], pats["Kc:*"] = true, true, true
 			case *ssa.Range:
 				pats["G:iter:*"] = true
 			case *ssa.Next:
@@ -835,7 +838,7 @@ func (vc *VC) modsOfCall(c *ssa.CallCommon, pats map[string]bool, seen map[*ssa.
 			pats["M:"+vc.sortOf(leafType(sliceElem(c.Args[0].Type())))] = true
 			pats["brk"] = true
 		case "delete", "clear":
-			pats["Kd:*"], pats["Kc"] = true, true
+			pats["Kd:*"], pats["Kc:*"] = true, true
 		}
 		return
 	}
@@ -905,7 +908,7 @@ func regionPatterns(vc *VC, e *SExpr) []string {
 	case "call":
 		switch e.Args[0].Name {
 		case "map":
-			return []string{"Kd:*", "Kv:*", "Kc"}
+			return []string{"Kd:*", "Kv:*", "Kc:*"}
 		case "elems":
 			return []string{"M:*"}
 		case "cell":
